@@ -8,6 +8,7 @@ from ..core import FUNC, call_attr, calls_in, const, dotted, is_const, kwarg, no
 from .c09 import waiter_rule, _stored_in_cancelled_table
 
 EXPLANATION = [
+    'C16.cis-follow-acl: Controller.on_le_disconnected concludes (on_le_cis_disconnected) every central / peripheral CIS whose acl_connection is the ACL being removed; every LE ACL removal goes through it.',
     'C16.sink-chain: every set_packet_sink override in a BaseSource subclass chains to super().set_packet_sink (or assigns self.sink).',
     'C16.cancel-dispatch: in utils.cancel_on_event, set_exception on the ensured future is reached only under `not isinstance(future, asyncio.Task)`.',
     'C16.loss-reaches-sink: every path of BaseSource.on_transport_lost on which a sink with on_transport_lost exists calls it (the state of `terminated` does not gate the notification).',
@@ -794,7 +795,31 @@ def sink_chain(ctx):
     R.check(n >= 1, rule, 'bumble.transport | set_packet_sink overrides', f'{n}', 'none found (anchor)')
 
 
+def cis_follow_acl(ctx):
+    """A CIS is carried by an ACL: when the virtual controller removes an LE ACL (both ways: the peer\'s TERMINATE_IND and
+    the local Disconnect go through on_le_disconnected) it concludes every CIS whose acl_connection is that ACL through
+    on_le_cis_disconnected, which reports the Disconnection Complete that makes host and device drop the link."""
+    R, p = ctx.r, ctx.p
+    rule = 'C16.cis-follow-acl'
+    fn = p.find('bumble.controller.Controller.on_le_disconnected')
+    if fn is None:
+        R.bad(rule, 'bumble.controller.Controller.on_le_disconnected', 'anchor missing')
+        return
+    loops = [l for l in walk_local(fn) if isinstance(l, (ast.For, ast.AsyncFor)) and 'cis_links' in norm(l.iter)]
+    both = any('central_cis_links' in norm(l.iter) for l in loops) and any('peripheral_cis_links' in norm(l.iter) for l in loops)
+    concl = [c for l in loops for c in calls_in(l) if dotted(c.func) == 'self.on_le_cis_disconnected']
+    guarded = bool(concl) and all(any('acl_connection' in norm(t) and 'connection' in norm(t) for t, pol in paths.flat_guards(c, stop=fn)) for c in concl)
+    R.check(both and guarded, rule, 'bumble.controller.Controller.on_le_disconnected', 'concludes the CISes of the ACL (central and peripheral tables)', 'the CIS links carried by a disconnected ACL are not concluded: they stay in the controllers\' CIS tables, no Disconnection Complete is sent for them and Host.cis_links / Device.cis_links keep them after their connection is gone', p.loc(fn))
+    callers = [p.qual_of(c) for m_ in [p.modules.get('bumble.controller')] if m_ is not None for c in ast.walk(m_.tree) if isinstance(c, ast.Call) and dotted(c.func) == 'self.on_le_disconnected']
+    R.check(len(callers) >= 2, rule, 'bumble.controller | ACL removals', f'{len(callers)} sites go through on_le_disconnected', f'only {len(callers)} callers found', p.loc(fn))
+    dels = [d for m_ in [p.modules.get('bumble.controller')] if m_ is not None for d in ast.walk(m_.tree) if isinstance(d, ast.Delete) and any('le_connections' in norm(t) for t in d.targets)]
+    # (a branch for a controller without a link is never taken: C03's census shows Controller.link is never None)
+    outside = [d for d in dels if p.qual_of(d) != 'bumble.controller.Controller.on_le_disconnected' and not any(norm(t) in ('self.link', 'self.link is not None') and not pol for t, pol in paths.flat_guards(d))]
+    R.check(not outside, rule, 'bumble.controller | le_connections removals', 'only on_le_disconnected deletes an LE connection', f'{[p.qual_of(d) for d in outside]} delete LE connections without concluding their CISes', p.loc(outside[0]) if outside else '')
+
+
 RULES = [
+    ('C16.cis-follow-acl', cis_follow_acl),
     ('C16.sink-chain', sink_chain),
     ('C16.cancel-dispatch', cancel_dispatch),
     ('C16.loss-reaches-sink', loss_reaches_sink),
